@@ -924,6 +924,24 @@ func (g *Gen) wellFormed(t *rapid.T, w *World, s *SessInfo) string {
 	if s != nil && len(s.Channels) > 0 && coin(t, "ownchan", 1, 2) {
 		c = pick(t, "mychan", s.Channels)
 	}
+	// target lists: several channels in one command, fresh and existing ones in any order
+	// (JOIN #new,#existing / PART #a,#b / PRIVMSG #a,nick / KICK #a,#b n1,n2)
+	cl, nl := c, n
+	if coin(t, "multitarget", 1, 5) {
+		k := rapid.IntRange(2, 4).Draw(t, "ntargets")
+		chans, nicks := []string{}, []string{}
+		pos := rapid.IntRange(0, k-1).Draw(t, "ownpos")
+		for j := 0; j < k; j++ {
+			if j == pos {
+				chans = append(chans, c)
+				nicks = append(nicks, n)
+			} else {
+				chans = append(chans, g.genChan(t, w))
+				nicks = append(nicks, g.genNick(t, w))
+			}
+		}
+		cl, nl = strings.Join(chans, ","), strings.Join(nicks, ",")
+	}
 	// weights by profile
 	type alt struct {
 		w int
@@ -962,14 +980,17 @@ func (g *Gen) wellFormed(t *rapid.T, w *World, s *SessInfo) string {
 					key = " " + ch.Key
 				}
 			}
-			return "JOIN " + c + key
+			return "JOIN " + cl + key
 		}},
-		{4 * wMember, func() string { return "PART " + c + pick(t, "partmsg", []string{"", " :bye"}) }},
+		{4 * wMember, func() string { return "PART " + cl + pick(t, "partmsg", []string{"", " :bye"}) }},
 		{4 * wMember * wPriv, func() string {
+			if cl != c {
+				return "KICK " + cl + " " + pick(t, "kicklist", []string{nl, g.memberOr(t, w, c, n)}) + pick(t, "kickmsg", []string{" :out", "", " :"})
+			}
 			return "KICK " + c + " " + g.memberOr(t, w, c, n) + pick(t, "kickmsg", []string{" :out", "", " :"})
 		}},
 		{8, func() string {
-			return pick(t, "msgcmd", []string{"PRIVMSG", "NOTICE"}) + " " + pick(t, "msgtarget", []string{c, c, n, n, "$*", "$$"}) + " :" + g.genText(t)
+			return pick(t, "msgcmd", []string{"PRIVMSG", "NOTICE"}) + " " + pick(t, "msgtarget", []string{cl, c, n, nl, "$*", "$$", cl + "," + nl}) + " :" + g.genText(t)
 		}},
 		{4 * wPriv, func() string {
 			return "TOPIC " + c + pick(t, "topicarg", []string{"", " :", " :new topic", " :" + g.genText(t), " notrailing"})
@@ -989,9 +1010,9 @@ func (g *Gen) wellFormed(t *rapid.T, w *World, s *SessInfo) string {
 		{2 * wPriv * wMember, func() string { return "KILL " + n + " :" + g.genText(t) }},
 		{2 * wPriv * wMember, func() string { return "GLINE " + n + " :" + pick(t, "glinereason", []string{"spam", ""}) }},
 		{2 * wMember, func() string { return "QUIT" + pick(t, "quitarg", []string{" :leaving", "", " :"}) }},
-		{3 * wRead, func() string { return "WHOIS " + pick(t, "whoisarg", []string{n, n, ":", n + " " + n}) }},
+		{3 * wRead, func() string { return "WHOIS " + pick(t, "whoisarg", []string{n, nl, ":", n + " " + n}) }},
 		{2 * wRead, func() string { return "WHO " + pick(t, "whoarg", []string{c, c, n, ""}) }},
-		{3 * wRead, func() string { return "NAMES " + pick(t, "namesarg", []string{c, c, "", c + ",#b"}) }},
+		{3 * wRead, func() string { return "NAMES " + pick(t, "namesarg", []string{c, cl, "", c + ",#b"}) }},
 		{2 * wRead, func() string { return "LIST" + pick(t, "listarg", []string{"", " " + c, " #a,#b", " ,", "  "}) }},
 		{2, func() string { return "AWAY" + pick(t, "awayarg", []string{" :gone", "", " :", " :" + g.genText(t)}) }},
 		{2 * wPriv, func() string { return "KNOCK " + c + pick(t, "knockarg", []string{"", " :let me in", " a b c"}) }},
